@@ -22,8 +22,8 @@ REQUIRED_OBS = {'eval:C08:algorithms-agree:Lss': 40, 'eval:C08:finite': 100, 'ev
                 'large_branch_lines': 1, 'small_branch_lines': 1}
 CASE_TIMEOUT = 900
 QUICK = [('fcc', 1), ('bcc', 1), ('hcp', 1), ('square', 1), ('honey', 1), ('omega', 1), ('tria', 1), ('lieb', 1), ('diamond', 1),
-         ('sc', 1), ('fcc', 2), ('b2', 1)]
-THOROUGH = QUICK + [('dtria', 1), ('rumpled', 1), ('kagome', 1), ('l12', 1), ('tet', 1), ('rect', 1), ('bcc', 2), ('square', 2),
+         ('sc', 1), ('fcc', 2), ('b2', 1), ('tric', 1), ('mono', 1), ('p4m', 1), ('p2', 1), ('mono2', 1), ('dtria', 1)]
+THOROUGH = QUICK + [('rumpled', 1), ('kagome', 1), ('l12', 1), ('tet', 1), ('rect', 1), ('bcc', 2), ('square', 2),
                     ('honey', 2), ('hcp', 2)]
 
 
@@ -33,49 +33,7 @@ def cases(tier, seed):
              'hashseed': (ci + rep) % 3} for ci, (n, t) in enumerate(pool) for rep in range(1 if tier == 'quick' else 2)]
 
 
-class BranchProbe:
-    """M4: counts executions of the two omega2 branches of Lij (line events on that code object only)."""
-
-    def __init__(self, func):
-        import inspect
-        self.code = func.__code__
-        src, start = inspect.getsourcelines(func)
-        self.large, self.small = set(), set()
-        mode = None
-        for n, line in enumerate(src):
-            st = line.strip()
-            if st.startswith('if np.any(np.abs(gdom2) > large_om2)'): mode = 'large'; continue
-            if mode == 'large' and st.startswith('else:'): mode = 'small'; continue
-            if mode == 'small' and st.startswith('# 6.'): mode = None
-            if mode == 'large' and st and not st.startswith('#'): self.large.add(start + n)
-            if mode == 'small' and st and not st.startswith('#'): self.small.add(start + n)
-        self.hits = {'large': 0, 'small': 0}
-        self.tool = None
-
-    def __enter__(self):
-        mon = sys.monitoring
-        for tid in (mon.PROFILER_ID, mon.COVERAGE_ID, 4, 5):
-            try:
-                mon.use_tool_id(tid, 'vmon-branch')
-                self.tool = tid
-                break
-            except ValueError:
-                continue
-        if self.tool is None: return self
-
-        def cb(code, line):
-            if line in self.large: self.hits['large'] += 1
-            elif line in self.small: self.hits['small'] += 1
-        mon.register_callback(self.tool, mon.events.LINE, cb)
-        mon.set_local_events(self.tool, self.code, mon.events.LINE)
-        return self
-
-    def __exit__(self, *a):
-        if self.tool is not None:
-            mon = sys.monitoring
-            mon.set_local_events(self.tool, self.code, 0)
-            mon.register_callback(self.tool, mon.events.LINE, None)
-            mon.free_tool_id(self.tool)
+from vmon.trace import BranchProbe
 
 
 def run_case(case):
@@ -97,7 +55,7 @@ def run_case(case):
             for kk in range(-3, 17):
                 args = [x.copy() for x in base]
                 args[5] = args[5] - kk * np.log(10.)
-                tags = list(tags0) + [t for t, k0 in (('om2_scaling>=1e4', 4), ('om2_scaling>=1e8', 8), ('om2_scaling>=1e9', 9)) if kk >= k0]
+                tags = work_vac.regime_tags(diff, args) + [t for t, k0 in (('om2_scaling>=1e4', 4), ('om2_scaling>=1e6', 6), ('om2_scaling>=1e8', 8), ('om2_scaling>=1e9', 9)) if kk >= k0]
                 try:
                     Ld = [np.array(x) for x in diff.Lij(*args)]
                     pair = None
@@ -114,7 +72,7 @@ def run_case(case):
                 fin = all(np.all(np.isfinite(x)) for x in Ld)
                 mon.check(fin, 'C08:finite', dt, tags)
                 if not fin: continue
-                for nm, x in zip(('L0vv', 'Lss', 'Lsv', 'L1vv'), Ld):
+                for nm, x in zip(('L0vv', 'Lss', 'L1vv'), (Ld[0], Ld[1], Ld[3])):
                     mon.close(x, x.T, 1e-6, 'C08:symmetric:' + nm, dt, tags, scale=max(sc, np.abs(x).max()))
                 if pair is not None:
                     for nm, a, b in zip(('L0vv', 'Lss', 'Lsv', 'L1vv'), pair[0], pair[1]):
